@@ -232,6 +232,29 @@ def run(ctx):
     res = csv_rows_to_dict(ctx, "C12.R2", [["survey"], ["", " type ", "name"], ["", " text ", ""]])
     r2.check(res.get("survey") == [{"type": "text"}] and res.get("survey_header") == [{"type": None, "name": None}], "csv_to_dict:strips cells, drops empty cells", "cell text is stripped and empty cells are omitted",
              pc.loc(), why_fail=repr(res))
+    # a reader's header row and its data rows name the columns alike (the header pass looks every row key up in the header
+    # row): a header with a run of spaces, outer spaces or a tab inside
+    for hdr_ in ("constraint  message", "label::English  (en)", "my\tcolumn", "Mixed  Case  Header"):
+        try:
+            res_h = csv_rows_to_dict(ctx, "C12.R2", [["survey"], ["", "type", hdr_], ["", "text", "v"]])
+            keys_h = set((res_h.get("survey") or [{}])[0])
+            hdr_h = set((res_h.get("survey_header") or [{}])[0])
+        except Raised as e:
+            keys_h, hdr_h = {f"raises {e.exc_name}"}, set()
+        r2.check(keys_h <= hdr_h and len(keys_h) == 2, f"csv_to_dict:header row vs row keys[{hdr_!r}]", "every key of a data row is a key of the header row", pc.loc(), why_fail=f"row keys {sorted(keys_h)} header {sorted(hdr_h)}")
+        it.reset([])
+        it.hooks["fnname:_md_table_to_ss_structure"] = lambda i, a, k, n, hdr_=hdr_: {"survey": [("type", hdr_), ("text", "v")]}
+        try:
+            pm_h = repo.func("pyxform.xls2json_backends:md_to_dict.process_md_data")
+            lt_h = repo.func("pyxform.xls2json_backends:md_to_dict.list_to_dicts")
+            res_m = it.call_function(pm_h, [], {"md_": "ignored"}, {"list_to_dicts": FuncVal(lt_h)}, pm_h.node)
+            keys_m = set((res_m.get("survey") or [{}])[0])
+            hdr_m = set((res_m.get("survey_header") or [{}])[0])
+        except Raised as e:
+            keys_m, hdr_m = {f"raises {e.exc_name}"}, set()
+        finally:
+            it.hooks.pop("fnname:_md_table_to_ss_structure", None)
+        r2.check(keys_m <= hdr_m and len(keys_m) == 2, f"md_to_dict:header row vs row keys[{hdr_!r}]", "every key of a data row is a key of the header row", mt_loc(ctx), why_fail=f"row keys {sorted(keys_m)} header {sorted(hdr_m)}")
     spacer_column_obligations(ctx, r2, "C12.R2")
     normal_sheet_obligations(ctx, r2, "C12.R2")
     # md
@@ -276,6 +299,30 @@ def run(ctx):
              why_fail=f"{len(rows_md) if isinstance(rows_md, list) else rows_md} table rows for header + 3 data rows")
     it.reset([])
     st = it.call_function(mt, ["| survey |\n| | type  | name |\n| |  text | |\n"], {}, None, mt.node)
+    # a data row whose cells hold only dashes / colons (a `-` delimiter, `:` or `--` placeholders) is data, not a separator
+    for desc_md, text_md, want_md in (("cells of dashes and colons", "| settings |\n| | delimiter | form_title | version |\n| | - | -- | : |\n", [("delimiter", "form_title", "version"), ("-", "--", ":")]),
+                                      ("a single dash cell", "| settings |\n| | delimiter |\n| | - |\n", [("delimiter",), ("-",)]),
+                                      ("separator line without spaces is skipped", "| survey |\n| | type | name |\n|---|---|---|\n| | text | q |\n", None)):
+        it.reset([])
+        try:
+            st_md = it.call_function(mt, [text_md], {}, None, mt.node)
+            got_md = [tuple(c_.strip() if isinstance(c_, str) else c_ for c_ in r_) for r_ in (st_md.get("settings") or st_md.get("survey") or [])] if isinstance(st_md, dict) else st_md
+        except Raised as e:
+            got_md = f"raises {e.exc_name}"
+        if want_md is None:
+            r2.check(got_md == [("type", "name"), ("text", "q")], f"md table[{desc_md}]", "-> header and one data row", mt.loc(), why_fail=repr(got_md))
+        else:
+            r2.check(got_md == want_md, f"md table[{desc_md}]", f"-> {want_md}", mt.loc(), why_fail=repr(got_md))
+    # text that is not a Markdown table - a csv whose cells contain pipes - yields no table at all, so that the Markdown
+    # reader refuses it and the csv reader gets its turn (a table row starts with `|`)
+    for desc_nt, text_nt in (("csv with a regex cell", "survey,,,,\n,type,name,label,constraint\n,text,q,Q,\"regex(., '^(yes|no|maybe)$')\"\n,text,r,R,\"regex(., '^(a|b|c)$')\"\n"),
+                             ("prose with pipes inside lines", "either a|b|c or d|e|f\nthen x | y | z again\n")):
+        it.reset([])
+        try:
+            st_nt = it.call_function(mt, [text_nt], {}, None, mt.node)
+        except Raised as e:
+            st_nt = f"raises {e.exc_name}"
+        r2.check(st_nt in ({}, None) or (isinstance(st_nt, dict) and not any(st_nt.values())), f"md table[{desc_nt}]", "no table is found", mt.loc(), why_fail=repr(st_nt)[:200])
     lt = repo.func("pyxform.xls2json_backends:md_to_dict.list_to_dicts")
     it.reset([])
     dicts = it.call_function(lt, [st["survey"]], {}, None, lt.node)
@@ -563,3 +610,7 @@ def run(ctx):
         r4.check(got_ft == want_ft, f"get_xlsform[{desc}]", f"the readers are tried with file type {want_ft!r}", gx.loc(), why_fail=f"got {got_ft!r}")
     rules.append(r4)
     return rules
+
+
+def mt_loc(ctx):
+    return ctx.func("pyxform.xls2json_backends:md_to_dict", "C12.R2").loc()
